@@ -175,7 +175,8 @@ def gen_facts():
 def coq_build():
     """Full .vo build of the development.  Returns (ok, log, failed_files)."""
     with Lock("coq"):
-        if not os.path.exists(os.path.join(COQ, "Makefile")):
+        mk, proj = os.path.join(COQ, "Makefile"), os.path.join(COQ, "_CoqProject")
+        if not os.path.exists(mk) or os.path.getmtime(mk) < os.path.getmtime(proj):
             rc, out = sh("coq_makefile -f _CoqProject -o Makefile", cwd=COQ, timeout=60)
             if rc != 0:
                 return False, out, ["Makefile"]
